@@ -368,7 +368,7 @@ def run_impl(inst, var, timeout=5, shared=None):
         return orig_mf(solution, int_set, eps)
 
     def push(heap, item):
-        if any(k[0] != item[0] and abs(k[0] - item[0]) < 1e-7 for k in heap):
+        if any(k[0] != item[0] and abs(k[0] - item[0]) < 1e-7 + 2.0**-45 * max(abs(k[0]), abs(item[0])) for k in heap):
             ties["heap"] = True
         return orig_push(heap, item)
 
